@@ -178,7 +178,7 @@ class Metadata:
             dset = grp.create_dataset(k, data=v)
             dset.attrs['type'] = 'string'.encode('utf-8')
         # bools
-        elif isinstance(v, bool):
+        elif isinstance(v, (bool,np.bool_)):
             dset = grp.create_dataset(k, data=v, dtype=bool)
             dset.attrs['type'] = 'bool'.encode('utf-8')
         # numbers
@@ -196,7 +196,7 @@ class Metadata:
                 dset = grp.create_dataset(k, data=v)
                 dset.attrs['type'] = 'tuple'.encode('utf-8')
             # of numbers
-            elif isinstance(v[0], Number):
+            elif isinstance(v[0], (Number,np.bool_)):
                 self._validate_sequence(v, (Number,np.bool_))
                 dset = grp.create_dataset(k, data=v)
                 dset.attrs['type'] = 'tuple'.encode('utf-8')
@@ -205,7 +205,7 @@ class Metadata:
                 # members must be numbers or flat tuples of numbers - anything
                 # else would read back as a different type
                 for x in v:
-                    if not (isinstance(x, Number) or (isinstance(x, tuple) and all([isinstance(y, Number) for y in x]))):
+                    if not (isinstance(x, (Number,np.bool_)) or (isinstance(x, tuple) and all([isinstance(y, (Number,np.bool_)) for y in x]))):
                         raise Exception(f"Metadata only supports writing tuples of tuples containing numbers; found type {type(x)}")
                 dset_grp = grp.create_group(k)
                 dset_grp.attrs['type'] = 'tuple_of_tuples'.encode('utf-8')
@@ -245,7 +245,7 @@ class Metadata:
                 dset = grp.create_dataset(k, data=v)
                 dset.attrs['type'] = 'list'.encode('utf-8')
             # of numbers
-            elif isinstance(v[0], Number):
+            elif isinstance(v[0], (Number,np.bool_)):
                 self._validate_sequence(v, (Number,np.bool_))
                 dset = grp.create_dataset(k, data=v)
                 dset.attrs['type'] = 'list'.encode('utf-8')
